@@ -454,6 +454,9 @@ pub fn do_navigate_command_string(mathml: Element, nav_command: &'static str) ->
             }
         };
 
+        #[cfg(mathcat_verif)]
+        verif::log(format!("R\t{}\t{}\t{}\t{}", nav_position.current_node, nav_position.current_node_offset, nav_state.mode, nav_state.speak_overview));
+
         // after a command, we either read or describe the new location (part of state)
         // also some commands are DescribeXXX/ReadXXX, so we need to look at the commands also
         let use_read_rules = if nav_command.starts_with("Read") {
@@ -487,6 +490,8 @@ pub fn do_navigate_command_string(mathml: Element, nav_command: &'static str) ->
             // Speak/Overview of where we landed (if we are supposed to speak it)
             let node_speech = speak(mathml, nav_position.current_node, use_read_rules)?;
             // debug!("node_speech: '{}'", node_speech);
+            #[cfg(mathcat_verif)]
+            verif::log(format!("S\tspoken\t{}", node_speech.is_empty()));
             if node_speech.is_empty() {
                 // try again in loop
                 return Ok( (speech, false));
@@ -496,6 +501,8 @@ pub fn do_navigate_command_string(mathml: Element, nav_command: &'static str) ->
                 return Ok( (speech + " " + &node_speech, true) );
             }
         } else {
+            #[cfg(mathcat_verif)]
+            verif::log("S\tsilent\tfalse".to_string());
             pop_stack(nav_state, loop_count);
             return Ok( (speech, true) );
         };
@@ -846,6 +853,40 @@ fn navigation_command_string(command: NavigationCommand, param: NavigationParam)
         }
     };
     return "Error";
+}
+
+#[cfg(mathcat_verif)]
+/// Verification hooks (compiled only with `--cfg mathcat_verif`)
+pub mod verif {
+    use super::*;
+    thread_local!{
+        static RULE_LOG: RefCell<Vec<String>> = RefCell::new(vec![]);
+    }
+
+    /// record what one application of the navigation rules decided
+    pub fn log(entry: String) {
+        RULE_LOG.with(|log| log.borrow_mut().push(entry));
+    }
+
+    /// returns and clears the log
+    pub fn take_log() -> Vec<String> {
+        return RULE_LOG.with(|log| log.replace(vec![]));
+    }
+
+    /// position stack, command stack (bottom first), place markers, mode, speak_overview
+    #[allow(clippy::type_complexity)]
+    pub fn nav_state() -> (Vec<(String, usize)>, Vec<String>, Vec<(String, usize)>, String, bool) {
+        return NAVIGATION_STATE.with(|nav_state| {
+            let nav_state = nav_state.borrow();
+            return (
+                nav_state.position_stack.iter().map(|p| (p.current_node.clone(), p.current_node_offset)).collect(),
+                nav_state.command_stack.iter().map(|c| c.to_string()).collect(),
+                nav_state.place_markers.iter().map(|p| (p.current_node.clone(), p.current_node_offset)).collect(),
+                nav_state.mode.clone(),
+                nav_state.speak_overview,
+            );
+        });
+    }
 }
 
 #[cfg(test)]
